@@ -276,6 +276,21 @@ def mimoQpsk (nt : Nat) (yr yi : List Rat) (Fr Fi : List (List Rat)) : Option (L
   else if qpskIsComplex nt yr yi Fr Fi then mimoBpsk (2 * nt) (yr ++ yi) (stackF Fr Fi)
   else mimoBpsk nt (yr ++ yi) (Fr ++ Fi)
 
+/-- `_amplitude_modulated_quadratic_form`: `hA = kron(amps, h)`, `JA = kron(amps·ampsᵀ, J)` with `amps = 2**arange(na)` are the
+    `h`, `J` of the system whose channel rows are `row, 2·row, 4·row, …` side by side (variables: all of amplitude 1, then all of
+    amplitude 2, …) -/
+def ampRows (na : Nat) (F : List (List Rat)) : List (List Rat) :=
+  F.map (fun row => (List.range na).flatMap (fun a => row.map (fun c => (2 ^ a : Nat) * c)))
+
+/-- `mimo(modulation, y, F)` for the quadrature amplitude modulations with `na = mod_config[modulation].number_of_amps` amplitude
+    bits per quadrature (QPSK 1, 16QAM 2, 64QAM 3, 256QAM 4 — as repaired by patches/mimo-256qam-number-of-amps.diff), as coded:
+    the quadrature form when `h` or `J` has an imaginary part, else the real form (see `mimoQpsk`) -/
+def mimoQam (na nt : Nat) (yr yi : List Rat) (Fr Fi : List (List Rat)) : Option (List (PTerm Label)) :=
+  if Fr.length ≠ yr.length ∨ Fi.length ≠ yi.length ∨ yr.length ≠ yi.length
+      ∨ Fr.any (fun row => row.length ≠ nt) ∨ Fi.any (fun row => row.length ≠ nt) then none
+  else if qpskIsComplex nt yr yi Fr Fi then mimoBpsk (na * (2 * nt)) (yr ++ yi) (ampRows na (stackF Fr Fi))
+  else mimoBpsk (na * nt) (yr ++ yi) (ampRows na (Fr ++ Fi))
+
 /-! ## `multiplication_circuit` with a one-bit argument (as repaired by patches/multiplication-circuit-one-bit.diff) -/
 
 /-- the AND gates of the one-bit branch: `and_gate(a_i, b_j, p_{i+j})` in `product(range(n), range(m))` order -/
